@@ -1174,6 +1174,7 @@ pub fn registry() -> Vec<Profile> {
             stubs: &["client-side HMAC chain (reference, RustCrypto hmac/sha2 directly)", "calendar (harness civil-date arithmetic; chrono NaiveDate only as the argument type)"],
             assumptions: ASSUME_COMMON,
             sweep: Some(sweep_c06),
+            pinned: None,
         },
         Profile {
             id: "C09",
@@ -1187,6 +1188,7 @@ pub fn registry() -> Vec<Profile> {
             stubs: STUBS_COMMON,
             assumptions: ASSUME_COMMON,
             sweep: Some(sweep_c09),
+            pinned: None,
         },
         Profile {
             id: "C10",
@@ -1200,6 +1202,7 @@ pub fn registry() -> Vec<Profile> {
             stubs: STUBS_COMMON,
             assumptions: ASSUME_COMMON,
             sweep: None,
+            pinned: None,
         },
         Profile {
             id: "C16",
@@ -1213,6 +1216,7 @@ pub fn registry() -> Vec<Profile> {
             stubs: STUBS_COMMON,
             assumptions: ASSUME_COMMON,
             sweep: Some(sweep_c16),
+            pinned: None,
         },
     ];
     v.extend(crate::direct2::registry());
